@@ -326,6 +326,10 @@ func (c LockCfg) spec() world.GenesisSpec {
 type lockWorld struct {
 	hook     func(blk world.Block, txs [][]byte, res *world.StepResult) *Failure
 	hookFail *Failure
+	// powerBeyondCap: some validator's exact (unbounded) voting power may have exceeded CometBFT's
+	// MaxTotalVotingPower in this or an earlier block (upper bound over the model) - the region of the
+	// recorded known finding 'voting power is not bounded'
+	powerBeyondCap bool
 	sim   *world.Sim
 	m     *lockModel
 	obs   *lockingtypes.GenesisState // latest export
@@ -838,4 +842,40 @@ func sameHoldings(a, b map[string]*big.Int) bool {
 func fmtHold(h map[string]*big.Int) string {
 	bz, _ := json.Marshal(h)
 	return string(bz)
+}
+
+
+// touchesPowerCap reports whether, with the requests of lb, some validator's exact voting power
+// (sum over tokens of weight*amount/1e18, computed without uint64 wrap-around) could exceed
+// CometBFT's MaxTotalVotingPower = MaxInt64/8. It is an upper bound: per token the largest weight
+// in force or requested and the largest holding plus every amount locked in this block.
+func (w *lockWorld) touchesPowerCap(lb LockBlock) bool {
+	cap := new(big.Int).SetInt64((1<<63 - 1) / 8)
+	total := new(big.Int)
+	for ti := range w.m.cfg.Tokens {
+		d := tokenDenom(tokenAddrs[ti])
+		maxW := new(big.Int).SetUint64(w.m.weight[d])
+		for _, wr := range lb.Weights {
+			if wr.Tok == ti {
+				if x := new(big.Int).SetUint64(wr.W); x.Cmp(maxW) > 0 {
+					maxW = x
+				}
+			}
+		}
+		maxH := new(big.Int)
+		for _, v := range w.m.vals {
+			if h := v.holding[d]; h != nil && h.Cmp(maxH) > 0 {
+				maxH = new(big.Int).Set(h)
+			}
+		}
+		for _, lr := range lb.Locks {
+			if lr.Tok == ti {
+				maxH.Add(maxH, bigOf(lr.Amt))
+			}
+		}
+		p := new(big.Int).Mul(maxW, maxH)
+		p.Quo(p, big.NewInt(1_000_000_000_000_000_000))
+		total.Add(total, p)
+	}
+	return total.Cmp(cap) > 0
 }
